@@ -271,5 +271,10 @@ func (m *toolManager) handleCallTool(
 		return newJSONRPCErrorResponse(req.ID, ErrCodeInternal, errMsg, nil), nil
 	}
 
+	// The protocol requires "content" to be an array, never null.
+	if result != nil && result.Content == nil {
+		result.Content = []Content{}
+	}
+
 	return result, nil
 }
